@@ -217,53 +217,48 @@ example : (onError (.escaped .typeError) ⟨false, some true⟩).conn = ⟨true,
 
 /-! ### the semantic hello checks reach no unrelated exception -/
 
-/-
-  Full statement (does NOT hold on the current tree):
-
-    theorem hello_checks_total (s : SrvSettings) (h : CH) : ∃ v, chChecks s h = .ok v
-    theorem server_hello_checks_total (c : CliState) (h : SH) : ∃ v, shChecks c h = .ok v
-
-  i.e. for every combination of hello features the check sequence ends in an alert or passes,
-  never in an `Escape`.  Missing on the ClientHello side: (1) a duplicated extension type makes
-  `getExtension` raise TLSInternalError with nothing sent; (2) a supported_versions extension with
-  an empty body parses to `versions = None`, which is iterated; (3) (outside the chain, after cipher
-  suite selection) a cert_type extension with an empty body parses to `certTypes = None`, which is
-  searched.  Missing on the ServerHello side:
-  (1) again, and in TLS 1.3 the selected key share / PSK are used unchecked (absent, empty body,
-  not offered, index out of range).  Each is a counterexample theorem below and a replay of the
-  harness on the real code.
--/
-
-/-- ClientHello: with the exceptions spelled out as hypotheses (no duplicated extension type,
-    supported_versions not present with an empty body), NO combination of the
-    modelled features — absent / present / empty lists / empty names / mismatching counts /
-    unoffered groups / any version numbers / any server settings — ends in an unrelated Python
-    exception: the sequence answers with an alert or passes. -/
-theorem hello_checks_total_partial (s : SrvSettings) (h : CH) (hnd : h.noDup = true)
-    (hv : h.supportedVersions.isPresentNone = false) :
-    ∃ v, chChecks s h = .ok v := by
+/-- ClientHello, full strength: for EVERY combination of the modelled features — each extension
+    absent / present / duplicated / without payload, empty lists, empty names, mismatching
+    counts, unoffered groups, any version numbers, any server settings — the check sequence of
+    `_serverGetClientHello` ends in an alert or passes; no combination reaches an unrelated Python
+    exception or an exception raised without alert.  (On the tree before the `fix:` commits
+    d11bffe and 5d41062 this needed three hypotheses: a duplicated extension type escaped as
+    TLSInternalError from getExtension, supported_versions without payload was iterated as None.) -/
+theorem hello_checks_total (s : SrvSettings) (h : CH) : ∃ v, chChecks s h = .ok v := by
   unfold chChecks
   split
   · exact ⟨_, rfl⟩
-  · simp only [CH.noDup, Bool.and_eq_true, Bool.not_eq_true'] at hnd
-    obtain ⟨⟨⟨⟨⟨⟨⟨⟨⟨⟨⟨⟨⟨⟨d1, d2⟩, d3⟩, d4⟩, d5⟩, d6⟩, d7⟩, d8⟩, d9⟩, d10⟩, d11⟩, d12⟩, d13⟩, d14⟩, d15⟩ := hnd
-    apply runBlocks_total
-    intro b hb
-    simp only [chBlocks, List.mem_cons, List.not_mem_nil, or_false] at hb
-    rcases hb with rfl | rfl | rfl | rfl | rfl | rfl | rfl | rfl | rfl | rfl | rfl | rfl | rfl
-    · exact chkVersion_total s h d1 hv
-    · exact chkBasics_total h
-    · exact chkSigAlgs_total h d2
-    · exact chkAlpn_total h d3
-    · exact chkSni_total h d4
-    · exact chkEms_total h d5
-    · exact chkEcPointFormats_total h d1 hv d6
-    · exact chkTls13_total h d1 hv d9 d8 d11 d10 d7 d2 d12
-    · exact chkVersionNegotiation_total s h d1 hv
-    · rw [withExt_ok _ _ d4]; exact ⟨_, rfl⟩
-    · exact chkGroups_total h d10
-    · exact chkHeartbeat_total h d13
-    · exact chkRecordSizeLimit_total h d14
+  · split
+    · exact ⟨_, rfl⟩
+    · rename_i hnd
+      simp only [Bool.not_eq_true', Bool.not_eq_false, CH.noDup, Bool.and_eq_true] at hnd
+      obtain ⟨⟨⟨⟨⟨⟨⟨⟨⟨⟨⟨⟨⟨⟨d1, d2⟩, d3⟩, d4⟩, d5⟩, d6⟩, d7⟩, d8⟩, d9⟩, d10⟩, d11⟩, d12⟩, d13⟩, d14⟩, d15⟩ := hnd
+      cases hv : h.supportedVersions.isPresentNone with
+      | true =>
+        -- answered by the very first check
+        have := chkSupportedVersions_presentNone h hv
+        simp only [chBlocks, runBlocks, this]
+        exact ⟨_, rfl⟩
+      | false =>
+        apply runBlocks_total
+        intro b hb
+        simp only [chBlocks, List.mem_cons, List.not_mem_nil, or_false] at hb
+        rcases hb with rfl | rfl | rfl | rfl | rfl | rfl | rfl | rfl | rfl | rfl | rfl | rfl | rfl | rfl | rfl
+        · exact chkSupportedVersions_total h d1
+        · exact chkVersion_total s h d1 hv
+        · exact chkBasics_total h
+        · exact chkSigAlgs_total h d2 d1
+        · exact chkAlpn_total h d3
+        · exact chkSni_total h d4
+        · exact chkEms_total h d5
+        · exact chkEcPointFormats_total s h d1 hv d6
+        · exact chkCertTypeExt_total h d15
+        · exact chkTls13_total h d1 hv d9 d8 d11 d10 d7 d2 d12
+        · exact chkVersionNegotiation_total s h d1 hv
+        · rw [withExt_ok _ _ d4]; exact ⟨_, rfl⟩
+        · exact chkGroups_total h d10
+        · exact chkHeartbeat_total h d13
+        · exact chkRecordSizeLimit_total h d14
 
 /-- an ordinary TLS 1.2 ClientHello, used for the witnesses -/
 def plainCH : CH :=
@@ -276,125 +271,144 @@ def plainCH : CH :=
 
 def plainSrv : SrvSettings := ⟨0x0301, 0x0304, [0x0304, 0x0303, 0x0302, 0x0301]⟩
 
-/-- non-vacuity: the ordinary hello meets the hypotheses and passes; a TLS 1.3 one as well -/
-example : plainCH.noDup = true ∧ chChecks plainSrv plainCH = .ok .pass := ⟨rfl, rfl⟩
 def tls13CH : CH :=
   { plainCH with supportedVersions := .present (some [0x0304, 0x0303]), keyShare := .present (some [29]),
                  pskModes := .present (some [1]) }
+
+/-- non-vacuity: ordinary hellos pass, degenerate ones get the alert the code sends -/
+example : chChecks plainSrv plainCH = .ok .pass := rfl
 example : chChecks plainSrv tls13CH = .ok .pass := rfl
 example : chChecks plainSrv { plainCH with sni := .present ⟨false, [(1, .ok)]⟩ } = .ok .pass := rfl
 example : chChecks plainSrv { tls13CH with psk := .present ⟨some [0], some [32], true⟩ }
     = .ok (.alert 50 "Empty identity in PSK extension") := rfl
 
-/-- Deviation (c) of DESIGN.md section 7 item 4: a duplicated extension type (here the first one the
-    server asks for) ends the ClientHello checks with TLSInternalError and no alert. -/
-theorem clientHello_duplicate_extension_escapes :
-    chChecks plainSrv { plainCH with sigAlgs := .dup } = .error .dupExtension := rfl
-
-/-- New: supported_versions with an empty body (`versions = None`) is iterated -> TypeError,
-    whatever the legacy version says. -/
-theorem clientHello_empty_supported_versions_escapes :
+/-- The deviations that made the statement partial before, as they are answered now:
+    a duplicated extension type (DESIGN.md section 7 item 4 (c)) -> illegal_parameter at parse time;
+    supported_versions without payload, with any legacy version -> decode_error;
+    key_share without payload in psk_ke mode -> decode_error. -/
+theorem clientHello_former_escapes_answered :
+    chChecks plainSrv { plainCH with sigAlgs := .dup } = .ok (.alert 47 "parse-duplicate") ∧
     chChecks plainSrv { plainCH with supportedVersions := .present none }
-      = .error (.py .typeError "for v in ext.versions") ∧
+      = .ok (.alert 50 "Malformed supported_versions extension") ∧
     chChecks plainSrv { plainCH with clientVersion := 0x0301, supportedVersions := .present none }
-      = .error (.py .typeError "(3, 4) in ver_ext.versions") := ⟨rfl, rfl⟩
+      = .ok (.alert 50 "Malformed supported_versions extension") ∧
+    chChecks plainSrv { tls13CH with keyShare := .present none, pskModes := .present (some [0]),
+                                     psk := .present ⟨some [4], some [32], true⟩ }
+      = .ok (.alert 50 "Empty key_share extension") := ⟨rfl, rfl, rfl, rfl⟩
 
-/-- New: cert_type with an empty body (`certTypes = None`) is searched by the certificate-type
-    test after cipher suite selection -> TypeError; with the hypothesis it is total. -/
-theorem clientHello_empty_cert_type_escapes :
-    certTypeCheck plainSrv { plainCH with certType := .present none }
-      = .error (.py .typeError "CertificateType.x509 not in clientHello.certificate_types") := rfl
+/-- The certificate-type test that follows cipher suite selection (the statements between the
+    modelled chain and it are not modelled): once the chain has passed, it cannot escape either —
+    a cert_type extension without payload was answered by the chain (`Empty cert_type extension`). -/
+theorem certTypeCheck_total (s : SrvSettings) (h : CH) (hp : chChecks s h = .ok .pass) :
+    ∃ v, certTypeCheck s h = .ok v := by
+  unfold chChecks at hp
+  split at hp
+  · cases hp
+  · split at hp
+    · cases hp
+    · rename_i hnd
+      simp only [Bool.not_eq_true', Bool.not_eq_false, CH.noDup, Bool.and_eq_true] at hnd
+      have d15 : h.certType.isDup = false := by simpa using hnd.2
+      have hb := runBlocks_pass_inv _ hp (fun _ => chkCertTypeExt h)
+        (by simp [chBlocks])
+      have hc : h.certType.isPresentNone = false := by
+        unfold chkCertTypeExt at hb
+        rw [withExt_ok _ _ d15] at hb
+        cases hct : h.certType with
+        | absent => rfl
+        | dup => rfl
+        | present t =>
+          cases t with
+          | some l => rfl
+          | none => rw [hct] at hb; simp [Ext.toOption, alertIf, optEmpty] at hb
+      apply runBlocks_total
+      intro b hb'
+      simp only [List.mem_cons, List.not_mem_nil, or_false] at hb'
+      subst hb'
+      exact chkCertTypes_total s h d15 hc
 
-theorem certTypeCheck_total_partial (s : SrvSettings) (h : CH) (hd : h.certType.isDup = false)
-    (hc : h.certType.isPresentNone = false) : ∃ v, certTypeCheck s h = .ok v := by
-  apply runBlocks_total
-  intro b hb
-  simp only [List.mem_cons, List.not_mem_nil, or_false] at hb
-  subst hb
-  exact chkCertTypes_total s h hd hc
+example : certTypeCheck plainSrv { plainCH with certType := .present (some [1]) }
+    = .ok (.alert 40 "the client doesn't support my certificate type") := rfl
 
 /-! ServerHello -/
 
-/-- ServerHello: with the exceptions spelled out (no duplicated extension type; in TLS 1.3 the
-    selected key share / PSK present, well formed and among what was offered), no combination of
-    the modelled features ends in an unrelated exception. -/
-theorem server_hello_checks_total_partial (c : CliState) (h : SH) (hnd : h.noDup = true)
-    (hsel : ∀ rv, shRealVersion h = .ok rv → 0x0303 < rv → h.selectionOk c = true) :
-    ∃ v, shChecks c h = .ok v := by
+/-- ServerHello, full strength: for every combination of the modelled features and every client
+    state the checks of `_clientGetServerHello` and the start of `_clientTLS13Handshake` end in an
+    alert or pass.  (Before the `fix:` commits d11bffe, aae4c38 and fd09688 this needed the
+    hypotheses "no duplicated extension type" and "in TLS 1.3 the selected key share / PSK is
+    present, well formed and was offered".) -/
+theorem server_hello_checks_total (c : CliState) (h : SH) : ∃ v, shChecks c h = .ok v := by
   unfold shChecks
   split
   · exact ⟨_, rfl⟩
-  · simp only [SH.noDup, Bool.and_eq_true, Bool.not_eq_true'] at hnd
-    obtain ⟨⟨⟨⟨⟨⟨d1, d2⟩, d3⟩, d4⟩, d5⟩, d6⟩, d7⟩ := hnd
-    apply runBlocks_total
-    intro b hb
-    simp only [shBlocks, List.mem_cons, List.not_mem_nil, or_false] at hb
-    rcases hb with rfl | rfl | rfl | rfl | rfl | rfl | rfl
-    · obtain ⟨rv, hr⟩ := shRealVersion_total h d1
-      simp only [shkVersion, hr, alertIf, done]
-      finish_chk
-    · simp only [shkBasics, alertIf, done]
-      finish_chk
-    · obtain ⟨rv, hr⟩ := shRealVersion_total h d1
-      simp only [shkEms, hr, withExt_ok _ _ d2, alertIf, done]
-      finish_chk
-    · simp only [shkAlpn, withExt_ok _ _ d3]
-      cases h.alpn.toOption with
-      | none => exact ⟨_, rfl⟩
-      | some names =>
-        rcases names with _ | ⟨n0, tl⟩ <;> simp only [alertIf, done] <;> finish_chk
-    · simp only [shkHeartbeat, withExt_ok _ _ d4, alertIf, done]
-      finish_chk
-    · simp only [shkRecordSizeLimit, withExt_ok _ _ d5, alertIf, done]
-      finish_chk
-    · exact shkTls13_total c h d1 d6 d7 hsel
+  · split
+    · exact ⟨_, rfl⟩
+    · rename_i hnd
+      simp only [Bool.not_eq_true', Bool.not_eq_false, SH.noDup, Bool.and_eq_true] at hnd
+      obtain ⟨⟨⟨⟨⟨⟨⟨d1, d2⟩, d3⟩, d4⟩, d5⟩, d6⟩, d7⟩, d8⟩ := hnd
+      apply runBlocks_total
+      intro b hb
+      simp only [shBlocks, List.mem_cons, List.not_mem_nil, or_false] at hb
+      rcases hb with rfl | rfl | rfl | rfl | rfl | rfl | rfl | rfl
+      · obtain ⟨rv, hr⟩ := shRealVersion_total h d1
+        simp only [shkVersion, hr, alertIf, done]
+        finish_chk
+      · simp only [shkBasics, alertIf, done]
+        finish_chk
+      · obtain ⟨rv, hr⟩ := shRealVersion_total h d1
+        simp only [shkEms, hr, withExt_ok _ _ d2, alertIf, done]
+        finish_chk
+      · simp only [shkAlpn, withExt_ok _ _ d3]
+        cases h.alpn.toOption with
+        | none => exact ⟨_, rfl⟩
+        | some names =>
+          rcases names with _ | ⟨n0, tl⟩ <;> simp only [alertIf, done] <;> finish_chk
+      · simp only [shkHeartbeat, withExt_ok _ _ d4, alertIf, done]
+        finish_chk
+      · simp only [shkEcPointFormats, withExt_ok _ _ d8, alertIf, done]
+        finish_chk
+      · simp only [shkRecordSizeLimit, withExt_ok _ _ d5, alertIf, done]
+        finish_chk
+      · exact shkTls13_total c h d1 d6 d7
 
 def plainSH12 : SH :=
   { parseError := false, serverVersion := 0x0303, supportedVersions := .absent, aligned := true, hrrCipherMismatch := false,
     sessionIdEchoed := true, cipherOffered := true, certTypeOffered := true, compressionNull := true,
     tack := false, npn := false, ems := .present (), alpn := .absent, alpnFirstOffered := true,
-    heartbeat := .absent, recordSizeLimit := .absent, keyShare := .absent, psk := .absent }
+    heartbeat := .absent, ecPointFormats := .present (some [0]), recordSizeLimit := .absent,
+    keyShare := .absent, psk := .absent }
 
-def plainSH13 : SH := { plainSH12 with supportedVersions := .present 0x0304, keyShare := .present (some 29) }
+def plainSH13 : SH :=
+  { plainSH12 with supportedVersions := .present 0x0304, keyShare := .present (some 29), ecPointFormats := .absent }
 
 def plainCli : CliState :=
   { minVersion := 0x0301, maxVersion := 0x0304, versions := [0x0304, 0x0303, 0x0302, 0x0301], requireEms := false,
     sentTack := false, sentNpn := false, sentAlpn := false, useHeartbeat := true, heartbeatCallback := false,
     sharesSent := some [29, 23], pskIdsSent := none }
 
-example : plainSH12.noDup = true ∧ shChecks plainCli plainSH12 = .ok .pass := ⟨rfl, rfl⟩
-example : plainSH13.selectionOk plainCli = true ∧ shChecks plainCli plainSH13 = .ok .pass := ⟨rfl, rfl⟩
+example : shChecks plainCli plainSH12 = .ok .pass := rfl
+example : shChecks plainCli plainSH13 = .ok .pass := rfl
 example : shChecks plainCli { plainSH13 with sessionIdEchoed := false } =
     .ok (.alert 47 "Received ServerHello session_id does not match the one in ClientHello") := rfl
 
-/-- (c) again, client side: a duplicated extension in the ServerHello -/
-theorem serverHello_duplicate_extension_escapes :
-    shChecks plainCli { plainSH13 with ems := .dup } = .error .dupExtension := rfl
-
-/-- New: TLS 1.3 ServerHello with neither key_share nor pre_shared_key: TLSIllegalParameterException is
-    raised with nothing sent (it is not a TLSError either). -/
-theorem serverHello_no_selection_escapes :
+/-- the former ServerHello escapes, as they are answered now -/
+theorem serverHello_former_escapes_answered :
+    shChecks plainCli { plainSH13 with ems := .dup } = .ok (.alert 47 "parse-duplicate") ∧
     shChecks plainCli { plainSH13 with keyShare := .absent }
-      = .error (.protoNoAlert "Server did not select PSK nor an (EC)DH group") := rfl
-
-/-- New: key_share with an empty body parses to `server_share = None`; `.group` -> AttributeError. -/
-theorem serverHello_empty_key_share_escapes :
+      = .ok (.alert 47 "Server did not select PSK nor an (EC)DH group") ∧
     shChecks plainCli { plainSH13 with keyShare := .present none }
-      = .error (.py .attributeError "sr_kex.group") := rfl
-
-/-- New: a group we sent no share for: TLSIllegalParameterException, nothing sent. -/
-theorem serverHello_unoffered_group_escapes :
+      = .ok (.alert 50 "Empty key_share extension in Server Hello") ∧
     shChecks plainCli { plainSH13 with keyShare := .present (some 24) }
-      = .error (.protoNoAlert "Server selected not advertised group.") := rfl
-
-/-- New: pre_shared_key selected although we offered none / with an empty body / out of range. -/
-theorem serverHello_psk_selection_escapes :
+      = .ok (.alert 47 "Server selected not advertised group.") ∧
     shChecks plainCli { plainSH13 with psk := .present (some 0) }
-      = .error (.py .attributeError "clPSK.identities") ∧
+      = .ok (.alert 110 "Server sent pre_shared_key extension without one in client hello") ∧
     shChecks { plainCli with pskIdsSent := some 1 } { plainSH13 with psk := .present none }
-      = .error (.py .typeError "clPSK.identities[sr_psk.selected]") ∧
+      = .ok (.alert 50 "Empty pre_shared_key extension in Server Hello") ∧
     shChecks { plainCli with pskIdsSent := some 1 } { plainSH13 with psk := .present (some 1) }
-      = .error (.py .indexError "clPSK.identities[sr_psk.selected]") := ⟨rfl, rfl, rfl⟩
+      = .ok (.alert 47 "Server selected PSK identity we did not offer") ∧
+    shChecks plainCli { plainSH12 with ecPointFormats := .present none }
+      = .ok (.alert 50 "Empty ec_point_formats extension in Server Hello") :=
+  ⟨rfl, rfl, rfl, rfl, rfl, rfl, rfl, rfl⟩
 
 /-! ### compressed certificates -/
 
